@@ -29,7 +29,8 @@ MANIFEST = {
             "CreateSamplingMask, a semantic-facts table of the ten deciding functions with private helpers followed (no return "
             "of an input outside an `is None` guard, no state written, no in-place update of an argument, no condition or loop range "
             "depending on tensor shape / dtype / values or on the training / grad mode), and the tables of all 51 masking sites under direct/nn "
-            "(with per-function counts) and all 12 sites elsewhere in direct/ (no product of unmasked data with a mask) into Lean "
+            "(with per-function counts and the per-function list of the sites that may be conditional — every other site is unconditional) and all "
+            "12 sites elsewhere in direct/ (no product of unmasked data with a mask) into Lean "
             "(bridge lemmas), and by a bit-level differential correspondence on the real functions, modules, engines (toy "
             "MRIModelEngine, SSL and JSSL engines through their real _do_iteration) and scripted call histories.",
     "note": "Trusted: Lean kernel (+propext, Classical.choice, Quot.sound), the AST recipes of harness/translate/recipes/c03.py, "
@@ -83,7 +84,9 @@ RULE = ("k-space tensors (coil,h,w,2), (coil,s,h,w,2), (b,coil,h,w,2), (b,coil,s
         "coil ladder); CreateSamplingMask options (shape None / () / full / with None / too long, use_seed, return_acs, padding) + ApplyMask; "
         "ACS sites; plus a malformed stream (non-broadcastable masks, no complex axis, missing keys). Oracle: the same on arbitrary values, "
         "float16/bfloat16/float64 k-space, 10 mask dtypes, non-contiguous layouts, aliasing, grad / no_grad / inference modes, 13 unrolled "
-        "blocks (train/eval, coil ladder, weighted masks, object re-use), VSharp engines with padding, SSL splitters. "
+        "blocks (train/eval, coil ladder, weighted masks, object re-use) plus 11 option variants (XPDNet with a learned CONV / DIDN k-space "
+        "model and num_dual 1 / 2, the smallest supported value of every count / buffer-size option of the other blocks), VSharp engines with "
+        "padding, SSL splitters. "
         "non-trivial = at least one sampled and one unsampled position and ≥ 4 k-space entries, or a malformed input that must "
         "be rejected, or a history of ≥ 3 calls; distinct = distinct protocol line / oracle case key")
 PENDING_FINDINGS: list[str] = []   # `acs-mul-mask:inf-outside-acs-gives-nan` (phase 3) was repaired in /repo; Props/C03.acs_mul_pinned_violates
@@ -1091,6 +1094,41 @@ def nn_block_specs():
         "XPDNet": (lambda F, B: XPDNet(F, B, num_primal=2, num_dual=1, num_iter=2, use_primal_only=True,
                                        image_model_architecture="MWCNN", mwcnn_hidden_channels=2),
                    lambda n, y, m, S: n(y, m, S), "hook-all", True, False),
+        # learned k-space model with the smallest buffer (num_dual = 1), and with two dual buffers
+        "XPDNet-dual1-conv": (lambda F, B: XPDNet(F, B, num_primal=1, num_dual=1, num_iter=2, use_primal_only=False,
+                                                  kspace_model_architecture="CONV", dual_conv_hidden_channels=2, dual_conv_n_convs=2,
+                                                  image_model_architecture="MWCNN", mwcnn_hidden_channels=2),
+                              lambda n, y, m, S: n(y, m, S), "hook-all", True, False),
+        "XPDNet-dual1-didn": (lambda F, B: XPDNet(F, B, num_primal=2, num_dual=1, num_iter=1, use_primal_only=False,
+                                                  kspace_model_architecture="DIDN", dual_didn_hidden_channels=2, dual_didn_num_dubs=1,
+                                                  dual_didn_num_convs_recon=1, image_model_architecture="MWCNN", mwcnn_hidden_channels=2),
+                              lambda n, y, m, S: n(y, m, S), "hook-all", True, False),
+        "XPDNet-dual2-conv": (lambda F, B: XPDNet(F, B, num_primal=2, num_dual=2, num_iter=2, use_primal_only=False,
+                                                  kspace_model_architecture="CONV", dual_conv_hidden_channels=2, dual_conv_n_convs=2,
+                                                  image_model_architecture="MWCNN", mwcnn_hidden_channels=2),
+                              lambda n, y, m, S: n(y, m, S), "hook-all", True, False),
+        # the smallest value (1) of every count / buffer-size option
+        "LPDNet-min": (lambda F, B: LPDNet(F, B, num_iter=1, num_primal=2, num_dual=1,   # (num_primal = 1 is not supported: slices 2:4) primal_model_architecture="UNET",
+                                           dual_model_architecture="CONV", primal_unet_num_filters=2, primal_unet_num_pool_layers=1),
+                       lambda n, y, m, S: n(y, S, m), "hook-all", True, False),
+        "KIKINet-min": (lambda F, B: KIKINet(F, B, image_model_architecture="UNET", kspace_model_architecture="CONV", num_iter=2,   # (1: no forward call)
+                                             kspace_conv_hidden_channels=2, kspace_conv_n_convs=2, **un),
+                        lambda n, y, m, S: n(y, m, S), "hook-all", True, False),
+        "VSharpNet-min": (lambda F, B: VSharpNet(F, B, num_steps=1, num_steps_dc_gd=1, no_parameter_sharing=True,
+                                                 initializer_channels=(2, 2, 2), initializer_dilations=(1, 1, 1),
+                                                 auxiliary_steps=-1, **un),
+                          lambda n, y, m, S: torch.stack(n(y, S, m)), "hook-all", True, False),
+        "JointICNet-min": (lambda F, B: JointICNet(F, B, 1, False, kspace_unet_num_filters=2, kspace_unet_num_pool_layers=1,
+                                                   sens_unet_num_filters=2, sens_unet_num_pool_layers=1, **un),
+                           lambda n, y, m, S: n(y, m, S), "hook-all", True, False),
+        "IterDualNet-min": (lambda F, B: IterDualNet(F, B, num_iter=1, kspace_unet_num_filters=2, kspace_unet_num_pool_layers=1, **un),
+                            lambda n, y, m, S: n(y, m, S), "hook-gated", True, False),
+        "RIM-min": (lambda F, B: RIM(F, B, hidden_channels=4, length=1, depth=1),
+                    lambda n, y, m, S: n(T.reduce_operator(T.ifft2(y, dim=(2, 3)), S, 1), y, m, S)[0][-1], "hook-all", True, False),
+        "ConjGradNet-min": (lambda F, B: ConjGradNet(F, B, num_steps=1, cg_iters=1, resnet_hidden_channels=2, resnet_num_blocks=1),
+                            lambda n, y, m, S: n(y, S, m), "hook-all", True, False),
+        "MRIVarSplitNet-min": (lambda F, B: MRIVarSplitNet(F, B, 1, 1, InitType.SENSE, True, ModelName.UNET, True, None, **un),
+                               lambda n, y, m, S: n(y, S, m), "hook-all", True, False),
         "JointICNet": (lambda F, B: JointICNet(F, B, 2, False, kspace_unet_num_filters=2, kspace_unet_num_pool_layers=1,
                                                sens_unet_num_filters=2, sens_unet_num_pool_layers=1, **un),
                        lambda n, y, m, S: n(y, m, S), "hook-all", True, False),
@@ -1333,7 +1371,10 @@ def check_vsharp_engine(seed: int, three_d: bool):
 
 
 NN_BLOCKS = ["LPDNet", "XPDNet", "JointICNet", "KIKINet", "VSharpNet", "VSharpNet3D", "MRIVarSplitNet", "IterDualNet", "RIM",
-             "ConjGradNet", "CIRIM", "EndToEndVarNetBlock", "RecurrentVarNetBlock"]
+             "ConjGradNet", "CIRIM", "EndToEndVarNetBlock", "RecurrentVarNetBlock",
+             "XPDNet-dual1-conv", "XPDNet-dual1-didn", "XPDNet-dual2-conv", "LPDNet-min", "KIKINet-min", "VSharpNet-min", "JointICNet-min",
+             "IterDualNet-min", "RIM-min", "ConjGradNet-min", "MRIVarSplitNet-min"]
+NN_VARIANTS = NN_BLOCKS[13:]        # option variants: fewer cases each
 
 
 def oracle_nn_blocks(ctx: Ctx, deep: bool):
@@ -1341,7 +1382,7 @@ def oracle_nn_blocks(ctx: Ctx, deep: bool):
 
     rng = ctx.rng
     for name in NN_BLOCKS:
-        for j in range(ctx.budget(6, 40) * (2 if deep else 1)):
+        for j in range((ctx.budget(3, 16) if name in NN_VARIANTS else ctx.budget(6, 40)) * (2 if deep else 1)):
             seed = rng.randrange(1, 2 ** 20)
             train = j % 2 == 1                                  # module paths in evaluation AND training mode
             coils = None if j % 3 != 2 else rng.choice([8, 9, 16, 17, 20, 33])     # coil-count ladder at an 8x8 matrix
